@@ -274,7 +274,8 @@ macro_rules! exp_harness {
 }
 
 exp_harness!(c13_expA_f0_a3, run_exp_structural, 0, 3, 5);
-exp_harness!(c13_expA_f1_a3, run_exp_structural, 1, 3, 5);
+// (factor 1 is covered by the law harness expB_f1_a3: the monotonicity assertion below would compare two
+// identical symbolic f64 computations, the equivalence CBMC does not finish)
 exp_harness!(c13_expA_f2_a3, run_exp_structural, 2, 3, 5);
 exp_harness!(c13_expA_f10_a4, run_exp_structural, 10, 4, 6);
 exp_harness!(c13_expA_f2p32_a3, run_exp_structural, 1 << 32, 3, 5);
